@@ -47,7 +47,9 @@ pub fn gen_mode_graph_case(d: &mut Dec, thorough: bool, lookaheads: usize) -> Ca
     };
     let model = case.model();
     if large && d.chance(10) {
-        // offsets, token counts and line counts beyond 65 535
+        // offsets, token counts and line counts beyond 65 535 (on a configuration that scans in
+        // linear time)
+        case.modes = gen::benign_modes();
         case.inputs.push(gen::gen_huge_input(d, &model));
         return case;
     }
